@@ -169,7 +169,7 @@ func levels(p rlwe.Parameters, kq, kp int) (int, int) {
 	lq := p.MaxLevelQ() - mod(kq, p.MaxLevelQ()+1)
 	lp := p.MaxLevelP()
 	if lp >= 0 {
-		lp -= mod(kp, lp+1)
+		lp -= mod(kp, lp+2) // down to -1: objects without P part under parameters that have auxiliary primes
 	}
 	return lq, lp
 }
